@@ -54,7 +54,7 @@ type et_type =
 type et_err = { et_trz : bool; et_typ : et_type; et_trace : bool;
                 et_sad : bool }
 
-type et_env = { et_flag : bool; et_deleted : bool }
+type et_env = { et_flag : bool; et_deleted : bool; et_window : bool }
 
 type et_bexp =
 | BTypeIs of et_type
@@ -133,6 +133,7 @@ type et_cond =
 | CPred of et_pname
 | CFlag
 | CDeleted
+| CWindow
 | CVar of et_var
 | CConst of bool
 | CNot of et_cond
@@ -150,6 +151,7 @@ type et_stmt =
 | TSetStr of et_var * et_word
 | TDelete
 | TSend of et_sexp * bool
+| TSwitchWriter
 | TExit of bool
 | TIf of et_cond * et_stmt list * et_stmt list
 | TReturn
@@ -158,19 +160,19 @@ type et_stmt =
 type et_act =
 | AClean
 | ADelete
-| ASend of et_word * bool
+| ASend of et_word * bool * bool
 | AExit of bool
 
 type et_state = { es_bools : (et_var * bool) list;
                   es_strs : (et_var * et_word) list; es_deleted_known : 
-                  bool; es_acts : et_act list; es_ret : bool; es_ok : 
-                  bool }
+                  bool; es_tunnel : bool; es_acts : et_act list;
+                  es_ret : bool; es_ok : bool }
 
 (** val et_init : et_state **)
 
 let et_init =
-  { es_bools = []; es_strs = []; es_deleted_known = false; es_acts = [];
-    es_ret = false; es_ok = true }
+  { es_bools = []; es_strs = []; es_deleted_known = false; es_tunnel = false;
+    es_acts = []; es_ret = false; es_ok = true }
 
 (** val et_lookup : (et_var * 'a1) list -> et_var -> 'a1 option **)
 
@@ -193,6 +195,7 @@ let rec et_cval preds e env st intrz = function
    | None -> (false, false))
 | CFlag -> (env.et_flag, true)
 | CDeleted -> (env.et_deleted, st.es_deleted_known)
+| CWindow -> (env.et_window, true)
 | CVar v ->
   (match et_lookup st.es_bools v with
    | Some b -> (b, true)
@@ -211,15 +214,15 @@ let rec et_cval preds e env st intrz = function
 
 let et_mark st k =
   { es_bools = st.es_bools; es_strs = st.es_strs; es_deleted_known =
-    st.es_deleted_known; es_acts = st.es_acts; es_ret = st.es_ret; es_ok =
-    ((&&) st.es_ok k) }
+    st.es_deleted_known; es_tunnel = st.es_tunnel; es_acts = st.es_acts;
+    es_ret = st.es_ret; es_ok = ((&&) st.es_ok k) }
 
 (** val et_emit : et_state -> et_act -> et_state **)
 
 let et_emit st a =
   { es_bools = st.es_bools; es_strs = st.es_strs; es_deleted_known =
-    st.es_deleted_known; es_acts = (a :: st.es_acts); es_ret = st.es_ret;
-    es_ok = st.es_ok }
+    st.es_deleted_known; es_tunnel = st.es_tunnel; es_acts =
+    (a :: st.es_acts); es_ret = st.es_ret; es_ok = st.es_ok }
 
 (** val et_is_istrz : et_cond -> bool **)
 
@@ -237,23 +240,27 @@ let rec et_exec preds e env intrz s st =
   | TSetBool (v, c) ->
     let (b, k) = et_cval preds e env st intrz c in
     et_mark { es_bools = ((v, b) :: st.es_bools); es_strs = st.es_strs;
-      es_deleted_known = st.es_deleted_known; es_acts = st.es_acts; es_ret =
-      st.es_ret; es_ok = st.es_ok } k
+      es_deleted_known = st.es_deleted_known; es_tunnel = st.es_tunnel;
+      es_acts = st.es_acts; es_ret = st.es_ret; es_ok = st.es_ok } k
   | TSetStr (v, x) ->
     { es_bools = st.es_bools; es_strs = ((v, x) :: st.es_strs);
-      es_deleted_known = st.es_deleted_known; es_acts = st.es_acts; es_ret =
-      st.es_ret; es_ok = st.es_ok }
+      es_deleted_known = st.es_deleted_known; es_tunnel = st.es_tunnel;
+      es_acts = st.es_acts; es_ret = st.es_ret; es_ok = st.es_ok }
   | TDelete ->
     et_emit { es_bools = st.es_bools; es_strs = st.es_strs;
-      es_deleted_known = true; es_acts = st.es_acts; es_ret = st.es_ret;
-      es_ok = st.es_ok } ADelete
+      es_deleted_known = true; es_tunnel = st.es_tunnel; es_acts =
+      st.es_acts; es_ret = st.es_ret; es_ok = st.es_ok } ADelete
   | TSend (t, names) ->
     (match t with
-     | SLit x -> et_emit st (ASend (x, names))
+     | SLit x -> et_emit st (ASend (x, names, st.es_tunnel))
      | SVar v ->
        (match et_lookup st.es_strs v with
-        | Some x -> et_emit st (ASend (x, names))
+        | Some x -> et_emit st (ASend (x, names, st.es_tunnel))
         | None -> et_mark st false))
+  | TSwitchWriter ->
+    et_mark { es_bools = st.es_bools; es_strs = st.es_strs;
+      es_deleted_known = st.es_deleted_known; es_tunnel = true; es_acts =
+      st.es_acts; es_ret = st.es_ret; es_ok = st.es_ok } env.et_window
   | TExit names -> et_emit st (AExit names)
   | TIf (c, a, b) ->
     let (v, k) = et_cval preds e env st intrz c in
@@ -276,8 +283,8 @@ let rec et_exec preds e env intrz s st =
          in run b st1
   | TReturn ->
     { es_bools = st.es_bools; es_strs = st.es_strs; es_deleted_known =
-      st.es_deleted_known; es_acts = st.es_acts; es_ret = true; es_ok =
-      st.es_ok }
+      st.es_deleted_known; es_tunnel = st.es_tunnel; es_acts = st.es_acts;
+      es_ret = true; es_ok = st.es_ok }
   | TUnknownStmt -> et_mark st false
 
 (** val et_run_from :
